@@ -100,7 +100,7 @@ def main():
     try:
         from sim import props
         prop = props.get(task['property'])
-        if prop.ENGINE == 'e1':
+        if prop.ENGINE == 'e1' and not hasattr(prop, 'run'):
             res = run_e1(task, prop)
         else:
             res = prop.run(task)
